@@ -191,9 +191,16 @@ type run struct {
 	nonce     uint64
 
 	forcePending bool
-	startBlocks  map[uint32]*block.MetaBlock // committed epoch-start block per epoch (genesis included)
-	parents      map[uint32]*block.MetaBlock // parent header of each committed epoch-start block
-	lastStart    *block.MetaBlock
+
+	// the history as the driver knows it: current epoch, the round it started in (moved to the round of the committed
+	// epoch-start block, restored by reverts and restarts), and whether its epoch-start block is still to be committed
+	mEpoch      uint32
+	mStart      uint64
+	mPending    bool
+	saved       map[string]obs              // mirror of the trigger registry: state saved under each state key
+	startBlocks map[uint32]*block.MetaBlock // committed epoch-start block per epoch (genesis included)
+	parents     map[uint32]*block.MetaBlock // parent header of each committed epoch-start block
+	lastStart   *block.MetaBlock
 
 	// the boot storer of the node: the trigger state key recorded with the current chain head
 	bootKey   []byte
@@ -272,6 +279,7 @@ func (r *run) build() error {
 		return err
 	}
 	r.hf = hf
+	r.saved[string(t.GetSavedStateKey())] = obs{epoch: r.epoch0, start: r.round0} // the constructor saves the genesis state
 	return nil
 }
 
@@ -287,7 +295,7 @@ func (r *run) hash(h *block.MetaBlock) []byte {
 
 func execC34(c *simkit.Ctx) bool {
 	p := c.Plan
-	r := &run{c: c, marsh: &marshal.GogoProtoMarshalizer{}, startBlocks: map[uint32]*block.MetaBlock{}, parents: map[uint32]*block.MetaBlock{}, keyBefore: map[uint32][]byte{}}
+	r := &run{c: c, marsh: &marshal.GogoProtoMarshalizer{}, startBlocks: map[uint32]*block.MetaBlock{}, parents: map[uint32]*block.MetaBlock{}, keyBefore: map[uint32][]byte{}, saved: map[string]obs{}}
 	r.rpe = uint64(p.Knob("rpe", 10))
 	r.minR = uint64(p.Knob("min", 3))
 	if r.rpe < 1 {
@@ -323,6 +331,7 @@ func execC34(c *simkit.Ctx) bool {
 		return false
 	}
 	r.bootKey = append([]byte(nil), r.trig.GetSavedStateKey()...)
+	r.mEpoch, r.mStart = r.epoch0, r.round0
 
 	// commitStartBlock does what the meta processor does once the trigger says "epoch start": build, commit, SetProcessed.
 	commitStartBlock := func() {
@@ -347,6 +356,8 @@ func execC34(c *simkit.Ctx) bool {
 		r.trig.SetProcessed(blk, nil)
 		r.bootKey = append([]byte(nil), r.trig.GetSavedStateKey()...)
 		r.startBlocks[e], r.parents[e], r.lastStart = blk, parent, blk
+		r.mEpoch, r.mStart, r.mPending = e, blk.Round, false
+		r.saved[string(r.bootKey)] = obs{epoch: e, start: blk.Round}
 	}
 
 	for i := range p.Steps {
@@ -354,6 +365,7 @@ func execC34(c *simkit.Ctx) bool {
 		c.CurStep = i
 		before := r.observe()
 		wasPending := r.forcePending
+		prevStart := r.mStart
 		desc := ""
 		switch st.Op {
 		case "Update":
@@ -369,21 +381,25 @@ func execC34(c *simkit.Ctx) bool {
 			after := r.observe()
 			started := after.epoch != before.epoch
 			desc = fmt.Sprintf("round=%d nonce=%d", r.clock, r.nonce)
-			if !before.isStart && !wasPending {
-				due := r.clock > before.start+r.rpe
+			if before.isStart && !r.mPending {
+				c.Probe("trigger_reports_pending_start_after_commit")
+			}
+			if !r.mPending && !wasPending {
+				due := r.clock > prevStart+r.rpe
 				switch {
 				case due && !started && r.nonce >= 4:
 					c.Violate("C34", "late-start", "Update", "Update(round=%d, nonce=%d): no epoch start although no force is pending and the round is after start %d + %d rounds per epoch (epoch %d)",
-						r.clock, r.nonce, before.start, r.rpe, before.epoch)
+						r.clock, r.nonce, prevStart, r.rpe, before.epoch)
 				case due && !started:
 					c.Probe("zero_epoch_edge_case_nonce_below_4")
 				case !due && started:
 					c.Violate("C34", "early-start-without-force", "Update", "Update(round=%d): epoch %d started although no force is pending and the round is not after start %d + %d rounds per epoch",
-						r.clock, after.epoch, before.start, r.rpe)
+						r.clock, after.epoch, prevStart, r.rpe)
 				}
 			}
 			if started && after.epoch == before.epoch+1 {
-				if wasPending && r.clock <= before.start+r.rpe {
+				r.mEpoch, r.mStart, r.mPending = after.epoch, r.clock, true
+				if wasPending && r.clock <= prevStart+r.rpe {
 					c.Probe("epoch_started_by_force")
 				} else {
 					c.Probe("epoch_started_normally")
@@ -470,6 +486,7 @@ func execC34(c *simkit.Ctx) bool {
 				r.trig.SetFinalityAttestingRound(r.clock)
 				if r.clock > before.start { // the trigger saved its state under a new key
 					r.bootKey = append([]byte(nil), r.trig.GetSavedStateKey()...)
+					r.saved[string(r.bootKey)] = obs{epoch: r.mEpoch, start: r.mStart}
 				}
 				desc = "attested"
 			} else {
@@ -482,9 +499,10 @@ func execC34(c *simkit.Ctx) bool {
 				// the epoch-start block itself is rolled back: the new head is its parent
 				if err := r.trig.RevertStateToBlock(r.parents[before.epoch]); err != nil {
 					c.Probe("revert_returned_error")
-				} else {
-					c.Probe("revert_of_epoch_start_block")
+					desc = "start-block-rollback-failed"
+					break
 				}
+				c.Probe("revert_of_epoch_start_block")
 				if k := r.keyBefore[before.epoch]; k != nil {
 					r.bootKey = k
 				}
@@ -495,6 +513,10 @@ func execC34(c *simkit.Ctx) bool {
 				if r.lastStart != nil && r.parents[r.lastStart.Epoch] == nil && r.lastStart.Epoch != r.epoch0 {
 					r.lastStart = nil
 				}
+				r.mEpoch, r.mStart, r.mPending = before.epoch-1, r.round0, false
+				if prev := r.startBlocks[before.epoch-1]; prev != nil {
+					r.mStart = prev.Round
+				}
 				desc = "start-block-rolled-back"
 			case mode == 1 && r.lastStart != nil && r.lastStart.Epoch > r.epoch0:
 				// the block after the epoch-start block is rolled back: the new head is the epoch-start block
@@ -504,6 +526,8 @@ func execC34(c *simkit.Ctx) bool {
 					c.Probe("revert_to_epoch_start_block")
 				}
 				r.bootKey = append([]byte(nil), r.trig.GetSavedStateKey()...)
+				r.mEpoch, r.mStart, r.mPending = r.lastStart.Epoch, r.lastStart.Round, false
+				r.saved[string(r.bootKey)] = obs{epoch: r.mEpoch, start: r.mStart}
 				desc = "to-start-block"
 			default:
 				h := newMeta()
@@ -527,6 +551,12 @@ func execC34(c *simkit.Ctx) bool {
 				c.HarnessErr("LoadState(%q): %v", key, err)
 				return false
 			}
+			exp, ok := r.saved[string(key)]
+			if !ok {
+				c.HarnessErr("no mirrored registry state for key %q", key)
+				return false
+			}
+			r.mEpoch, r.mStart, r.mPending = exp.epoch, exp.start, false
 			r.forcePending = false
 			c.Fault("close_reopen")
 			c.Probe("restart")
@@ -548,14 +578,20 @@ func execC34(c *simkit.Ctx) bool {
 			} else if st.Op == "Update" {
 				// the start round of the new epoch as the trigger itself decided it (before any epoch-start block moved it)
 				newStart := r.clock
-				if newStart < before.start || newStart-before.start < r.minR {
+				if newStart < prevStart || newStart-prevStart < r.minR {
 					c.Violate("C34", "min-rounds", "Update", "epoch %d started in round %d, %d rounds after epoch %d started (round %d); minimum is %d (force pending: %v)",
-						after.epoch, newStart, int64(newStart)-int64(before.start), before.epoch, before.start, r.minR, wasPending)
+						after.epoch, newStart, int64(newStart)-int64(prevStart), before.epoch, prevStart, r.minR, wasPending)
 				}
-			} else if after.start < before.start || after.start-before.start < r.minR {
-				c.Violate("C34", "min-rounds", st.Op, "%s: epoch %d started in round %d, previous epoch %d started in round %d; minimum distance is %d",
-					st.Op, after.epoch, after.start, before.epoch, before.start, r.minR)
+			} else {
+				if after.start < prevStart || after.start-prevStart < r.minR {
+					c.Violate("C34", "min-rounds", st.Op, "%s: epoch %d started in round %d, previous epoch %d started in round %d; minimum distance is %d",
+						st.Op, after.epoch, after.start, before.epoch, prevStart, r.minR)
+				}
+				r.mEpoch, r.mStart, r.mPending = after.epoch, after.start, after.isStart
 			}
+		}
+		if after.epoch != r.mEpoch || after.start != r.mStart {
+			c.Probe("reported_state_differs_from_history")
 		}
 		c.Eventf("%d %s %s -> epoch=%d isStart=%v startRound=%d pendingForce=%v", i, st.Op, desc, after.epoch, after.isStart, after.start, r.forcePending)
 		c.FP(after.epoch, int64(after.start)-int64(r.clock), after.isStart, r.forcePending)
